@@ -193,6 +193,7 @@ type zzC16Live struct {
 	host   string
 	strict bool
 	n      uint64
+	prevN  uint64
 	total  uint64
 	prep   int
 
@@ -206,6 +207,7 @@ type zzC16Live struct {
 // of its concretisation) or a reconfiguration that changes nothing.
 type zzC16Step struct {
 	Reconf bool    `json:"reconf,omitempty"`
+	Late   bool    `json:"late,omitempty"`
 	In     zzC16In `json:"in"`
 	Seed   int64   `json:"seed"`
 }
@@ -241,8 +243,21 @@ func (l *zzC16Live) nextID() (id uint64) {
 	return (l.n % 509) | ((l.n / 509) << 32)
 }
 
+// lateID returns the next identifier of the PREVIOUS proxy instance: a
+// connection that instance accepted and that was idle during the
+// reconfiguration delivers one more request through it (dnsproxy closes only
+// the listeners; handleTCPConnection checks isStarted before its blocking
+// read), and that request reaches the same Server hooks.
+func (l *zzC16Live) lateID() (id uint64) {
+	l.prevN++
+	l.total++
+
+	return (l.prevN % 509) | ((l.prevN / 509) << 32)
+}
+
 // newEpoch is called after every real Prepare.
 func (l *zzC16Live) newEpoch() {
+	l.prevN = l.n
 	l.n = 0
 	l.prep++
 	l.hist = append([]zzC16Step(nil), l.hist[l.epochStart:]...)
@@ -298,12 +313,21 @@ func (l *zzC16Live) runSeeded(in *zzC16In, seed int64) (out zzC16Out, concrete s
 		return out, "", err
 	}
 
-	if len(l.hist) < 20000 {
-		l.hist = append(l.hist, zzC16Step{In: *in, Seed: seed})
+	rng := rand.New(rand.NewSource(seed))
+	// One request in eight, over a connection-oriented transport, is a late
+	// one of the previous proxy instance (ClientID.tla, Reconfigure).
+	id, late := uint64(0), false
+	if l.prevN > 0 && in.Proto != "udp" && in.Proto != "dnscrypt" && rng.Intn(8) == 0 {
+		id, late = l.lateID(), true
+	} else {
+		id = l.nextID()
 	}
 
-	rng := rand.New(rand.NewSource(seed))
-	pctx, concrete, err := zzC16Request(in, rng, l.nextID(), zzC16Name(in.Host))
+	if len(l.hist) < 20000 {
+		l.hist = append(l.hist, zzC16Step{In: *in, Seed: seed, Late: late})
+	}
+
+	pctx, concrete, err := zzC16Request(in, rng, id, zzC16Name(in.Host))
 	if err != nil {
 		return out, concrete, err
 	}
@@ -483,6 +507,15 @@ func TestZZVerifC16Replay(t *testing.T) {
 					if len(hist) <= 4000 {
 						rec["history"] = hist
 					}
+
+					lates := 0
+					for i := range hist {
+						if hist[i].Late {
+							lates++
+						}
+					}
+
+					rec["late_requests"] = lates
 
 					w.put(rec)
 
